@@ -285,6 +285,13 @@ def scalar_array(ctx: Ctx, name: str, n: int = 1):
     return out
 
 
+def _num(t) -> float:
+    if isinstance(t, Fraction):
+        return float(t)
+    s = z3.simplify(t)
+    return float(Fraction(s.numerator_as_long(), s.denominator_as_long()))
+
+
 def validate_shim(seed: int = 0) -> list[str]:
     """Compare the re-implemented einsum/select/sqrt/arctan2/arccos with real NumPy on concrete
     rational arrays.  Returns a list of mismatches (a non-empty list is a harness error)."""
@@ -304,16 +311,13 @@ def validate_shim(seed: int = 0) -> list[str]:
         return f.astype(float), sym
 
     def val(v):
-        q = v.as_fraction()
-        if q is not None:
-            return float(q)
         # constant with radicals / i: evaluate
         total = 0j
         for bas, (r, i) in v.c.items():
             root = 1.0
             for g in bas:
                 root *= float(g) ** 0.5
-            total += (float(r) + 1j * float(i)) * root
+            total += (_num(r) + 1j * _num(i)) * root
         return total
 
     for subs, shapes in [
